@@ -87,6 +87,16 @@ MiddleOf(blk) ==
       ls == {i \in 1..Len(blk) : blk[i] = NL}
   IN IF f = 0 THEN <<>> ELSE LET l == CHOOSE i \in ls : \A j \in ls : j <= i IN SubSeq(blk, f + 1, l)
 
+\* the numbered rows of an observed block agree with its line range: as many rows as lines, numbered consecutively from the
+\* first line number (independent of what a "line" is in a source with carriage returns)
+RowsConsistent(blk, lr, w) ==
+  LET mid == MiddleOf(blk)
+      nl == SelectSeq([i \in 1..Len(mid) |-> i], LAMBDA i : mid[i] = NL)
+  IN /\ Len(nl) = lr[2] - lr[1] + 1
+     /\ \A j \in 1..Len(nl) :
+          LET p == IF j = 1 THEN 1 ELSE nl[j - 1] + 1 IN
+          p + w - 1 <= Len(mid) /\ SubSeq(mid, p, p + w - 1) = NumCol(lr[1] + j - 1, w)
+
 \* marker columns are pinned down only for ASCII text to the left and a plain last character
 ColumnsDetermined(t, br, r) ==
   /\ IsAscii(StartPrefix(t, br, r)) /\ IsAscii(EndPrefix(t, br, r))
